@@ -607,6 +607,24 @@ class Prop:
             for t in (1, 2, 3, 4):
                 a = [AS_PATH, 0x40, 1, enc_path([(t, [64512 + (i % 7) for i in range(n)]), (2, [65002])])]
                 cases += [[0, 2, LOCAL_AS, a], [0, 3, LOCAL_AS, a], [1, a]]
+        # --- the slice-index corner of the prepends (buf[1] on a one-byte buffer), every head byte
+        for b0 in (0, 1, 2, 3, 4, 5, 255):
+            for ty in (2, 3):
+                cases.append([0, ty, LOCAL_AS, [AS_PATH, 0x40, 1, [b0]]])
+                cases.append([0, ty, LOCAL_AS, [AS_PATH, 0x40, 1, [b0, 255]]])
+                cases.append([0, ty, LOCAL_AS, [AS_PATH, 0x40, 1, [b0, 254]]])
+            cases.append([1, [AS_PATH, 0x40, 1, [b0]]])
+            cases.append([1, [AS_PATH, 0x40, 1, [b0, 1]]])
+            cases.append([1, [AS_PATH, 0x40, 1, [b0, 1, 0, 0, 0]]])
+        # --- exhaustive: every path of at most 1 (quick) / 2 (thorough) segments over types 1-4,
+        # 0-2 ASes drawn from {local AS, another AS}, through every edit and the loop test
+        small_segs = [(t, list(a)) for t in (1, 2, 3, 4) for n in (0, 1, 2) for a in itertools.product((LOCAL_AS, 65002), repeat=n)]
+        small_paths = [[]] + [[sg] for sg in small_segs]
+        if tier != 'quick':
+            small_paths += [[a, b] for a in small_segs for b in small_segs]
+        for sp in small_paths:
+            a = [AS_PATH, 0x40, 1, enc_path(sp)]
+            cases += [[0, 2, 65003, a], [0, 3, 65003, a], [1, a], [2, [a], LOCAL_AS, 0], [2, [a], 65009, 65002]]
         # --- is_as_loop
         for _ in range(200 * scale):
             attrs = self.gen_attrs(rng, 'any' if rng.random() < 0.3 else 'wire')
@@ -615,6 +633,12 @@ class Prop:
         for s, d, cid, confed in self.matrix():
             if confed == 0:
                 cases.append([8, s, d, cid])
+        # every (role, same AS / different AS) combination, also the inconsistent ones
+        for r in ROLES:
+            for rasn in (LOCAL_AS, 65002):
+                for d in ROLES:
+                    for cid in ([], [0x01020304]):
+                        cases.append([8, [2, self.ADDR4[1], rasn, LOCAL_AS, 0x0a000002, r, 0], d, cid])
         for _ in range(100 * scale):
             cases.append([8, self.gen_source(rng), rng.choice(ROLES), rng.choice([[], [0x01020304]])])
         # --- export_attrs / pre_policy_defaults per role x confed
@@ -1031,6 +1055,52 @@ class Prop:
             tags.append('panic')
         if c[0] in (3, 4, 9, 10, 11, 12):
             tags.append('dest_' + ROLE_NAMES[c[1][0]])
+        # which branch of the model the case drives
+        t = c[0]
+        if t == 0:
+            a = c[3]
+            b = a[3] if a[2] != 0 else None
+            if b is None: tags.append('br_prepend_no_binary')
+            elif not b: tags.append('br_prepend_empty')
+            elif b[0] != c[1]: tags.append('br_prepend_other_type_head')
+            elif len(b) < 2: tags.append('br_prepend_index_panic')
+            elif b[1] < 255: tags.append('br_prepend_extend')
+            else: tags.append('br_prepend_full_segment')
+        if t == 1 and c[1][2] != 0:
+            sg = parse_path(c[1][3])
+            tags.append('br_strip_malformed' if sg is None else
+                        'br_strip_has_confed' if any(x[0] in (3, 4) for x in sg) else 'br_strip_no_confed')
+        if t == 3:
+            tags.append('br_export_has_as_path' if find(c[2], AS_PATH) is not None else 'br_export_no_as_path')
+            tags.append('br_export_opaque' if any(a[2] == 2 for a in c[2]) else 'br_export_no_opaque')
+        if t == 4:
+            tags.append('br_nh_none' if not c[3] else 'br_nh_local_explicit' if c[5] and not ip_unspec(nh_addr(c[3][0]))
+                        else 'br_nh_local_unspecified' if c[5] else 'br_nh_stored')
+            if c[4] in FLOWSPECS: tags.append('br_nh_flowspec')
+        if t == 5:
+            tags.append('br_reflect_has_originator' if find(c[1], ORIGINATOR_ID) is not None else 'br_reflect_no_originator')
+            tags.append('br_reflect_has_cluster_list' if find(c[1], CLUSTER_LIST) is not None else 'br_reflect_no_cluster_list')
+        if t == 6:
+            cm = find(c[1], COMMUNITY)
+            tags.append('br_llgr_no_community' if cm is None or cm[2] == 0 else
+                        'br_llgr_already_marked' if LLGR_STALE in chunks4(cm[3]) else 'br_llgr_append')
+        if t == 7:
+            tags.append('br_lp_present' if find(c[1], LOCAL_PREF) is not None else
+                        'br_lp_inject_partitioned' if partitioned_lt5(c[1]) else 'br_lp_inject_unpartitioned')
+        if t == 8 and obs != [-1]:
+            tags.append('br_suppress_%d%d%d' % tuple(obs))
+        if t in (9, 12):
+            tags.append('br_emap_%s' % ['none', 'plain', 'addpath'][c[6][0]])
+            if c[5][4]: tags.append('br_replaced_path_id')
+            if not c[5][2]: tags.append('br_best_unchanged')
+            if not c[5][3]: tags.append('br_any_unchanged')
+        if t == 12:
+            pol = c[8]
+            tags.append('br_pol_nh_%s' % (['address', 'self', 'peer', 'unchanged'][pol[0][0][0]] if pol[0] else 'none'))
+            tags.append('br_pol_med_%s' % (['mod', 'replace'][pol[1][0][0]] if pol[1] else 'none'))
+            tags.append('br_pol_%s' % ('reject' if pol[2] == 2 or (pol[2] == 0 and pol[3] == 2) else 'accept'))
+        if t == 10 and obs != [-1]:
+            tags.append('br_rx_%s' % ('dropped' if obs == [] else 'installed'))
         if c[0] in (9, 12) and obs != [-1]:
             tags.append('emax_%s' % ('1' if c[2] == 1 else 'addpath'))
             tags.append('reach_%d' % min(3, sum(1 for o in obs[0] if o[0] == 1)))
